@@ -361,17 +361,26 @@ func (m *Muxer) Accept() (Tube, error) {
 // readMsg reads a new packet from the underlying MsgConn. It then sets the timeout
 // so that future calls to readMsg will timeout appropriately.
 func (m *Muxer) readMsg() (*frame, error) {
-	_, err := m.underlying.ReadMsg(m.readBuf)
-	if err != nil {
-		return nil, err
-	}
+	for {
+		n, err := m.underlying.ReadMsg(m.readBuf)
+		if err != nil {
+			return nil, err
+		}
 
-	// Set timeout
-	if m.timeout != 0 {
-		m.underlying.SetReadDeadline(time.Now().Add(m.timeout))
-	}
-	return fromBytes(m.readBuf)
+		// Set timeout
+		if m.timeout != 0 {
+			m.underlying.SetReadDeadline(time.Now().Add(m.timeout))
+		}
 
+		// Only the bytes of this message are decoded. A malformed frame is
+		// dropped; it must not stop the receiver.
+		frame, err := fromBytes(m.readBuf[:n])
+		if err != nil {
+			m.log.Debug("dropping malformed frame")
+			continue
+		}
+		return frame, nil
+	}
 }
 
 // sender accepts frames from the Muxer queues and writes them synchronously to
